@@ -80,6 +80,11 @@ func (s *snmpService) Handle(_ context.Context, conn net.Conn) error {
 		return err
 	}
 
+	if !tlvLengthsFit(buf, 0) {
+		log.Errorf("Invalid ASN.1: a declared length exceeds the packet")
+		return nil
+	}
+
 	request := Message{}
 	ctx := Asn1Context()
 	remaining, err := ctx.Decode(buf, &request)
@@ -162,6 +167,52 @@ func (s *snmpService) Handle(_ context.Context, conn net.Conn) error {
 	}
 
 	return nil
+}
+
+// tlvLengthsFit reports whether b is a sequence of BER values in definite form whose
+// declared lengths - recursively for constructed values - stay inside their container.
+// The ASN.1 library allocates the declared length of a value before it reads it, so a
+// length of 2^38 in a seven byte packet would otherwise end the process (out of memory).
+func tlvLengthsFit(b []byte, depth int) bool {
+	if depth > 32 {
+		return false
+	}
+	for len(b) > 0 {
+		i := 1
+		if b[0]&0x1f == 0x1f { // high tag number form
+			for i < len(b) && b[i]&0x80 != 0 {
+				i++
+			}
+			i++
+		}
+		if i >= len(b) {
+			return false
+		}
+		l := int(b[i])
+		i++
+		if l == 0x80 { // indefinite form: used neither by SNMP nor by LDAP
+			return false
+		}
+		if l > 0x80 {
+			n := l & 0x7f
+			if n > 4 || i+n > len(b) {
+				return false
+			}
+			l = 0
+			for _, c := range b[i : i+n] {
+				l = l<<8 | int(c)
+			}
+			i += n
+		}
+		if l > len(b)-i {
+			return false
+		}
+		if b[0]&0x20 != 0 && !tlvLengthsFit(b[i:i+l], depth+1) {
+			return false
+		}
+		b = b[i+l:]
+	}
+	return true
 }
 
 func processPdu(pdu Pdu, next bool, set bool) GetResponsePdu {
